@@ -13,7 +13,7 @@ import (
 
 // C18 — replaying a keyboard macro equals retyping its keys.
 
-const c18Rule = "start buffer B0 and a key script K of 1-25 editing/movement keys: printables incl. quotes and backslash, control keys (C-a C-e C-b C-f C-d C-k C-y C-t C-w C-u C-h), ESC-prefixed keys (M-b M-f M-d M-u M-l M-c M-DEL), CSI arrows/Home/End/Delete, C-v + key; vi style: vi command keys (h l w b e 0 $ x X ~ p P D dw cw r<c> i/a/A/I...ESC); never the macro-control keys nor accept; emacs style C-x ( K C-x ) C-x e, vi style q<r> K q @<r>; one key per read in both sessions; oracle (metamorphic): session T types B0 K K, session R types B0, records K, replays once: final buffers, cursors and (after a common CR) returned lines are equal; pre-check: T after the first K equals R after recording, otherwise K itself is not deterministic and the case is discarded (counted); non-trivial = K has a control or ESC/CSI key and changes the buffer; distinct = hash of the case"
+const c18Rule = "start buffer B0 and a key script K of 1-25 editing/movement keys: printables incl. quotes and backslash, control keys (C-a C-e C-b C-f C-d C-k C-y C-t C-w C-u C-h), ESC-prefixed keys (M-b M-f M-d M-u M-l M-c M-DEL), CSI arrows/Home/End/Delete, C-v + key; vi style: vi command keys (h l w b e 0 $ x X ~ p P D dw cw r<c> i/a/A/I...ESC); never the macro-control keys nor accept; emacs style C-x ( K C-x ) C-x e, vi style q<r> K q @<r>; one key per read in both sessions; oracle (metamorphic): session T types B0 K then K r times, session R types B0, records K, replays r times (r = 1, 2, 3, and 21-30 for macros of up to 5 keys): final buffers, cursors and (after a common CR) returned lines are equal; pre-check: T after the first K equals R after recording, otherwise K itself is not deterministic and the case is discarded (counted); non-trivial = K has a control or ESC/CSI key and changes the buffer; distinct = hash of the case"
 
 type C18Case struct {
 	Style string      `json:"style"` // emacs | vi
@@ -21,6 +21,17 @@ type C18Case struct {
 	K     []K         `json:"k"` // one key per element
 	Reg   string      `json:"reg,omitempty"`
 	Vars  [][2]string `json:"vars,omitempty"`
+	// number of replays (0 = 1): typing K 1+Reps times must equal recording it
+	// once and replaying it Reps times, each replay a command of its own
+	Reps int `json:"reps,omitempty"`
+}
+
+func (c *C18Case) reps() int {
+	if c.Reps < 1 {
+		return 1
+	}
+
+	return c.Reps
 }
 
 var c18EmacsKeys = []string{"a", "b", " ", "x", "\"", "'", "\\", "(", "é", "1", "-",
@@ -43,6 +54,8 @@ func genC18(t *rapid.T) *C18Case {
 
 			c.K = append(c.K, encs(rapid.SampledFrom(c18EmacsKeys).Draw(t, "key")))
 		}
+
+		c.Reps = genC18Reps(t, len(c.K))
 
 		return c
 	}
@@ -75,7 +88,19 @@ func genC18(t *rapid.T) *C18Case {
 		}
 	}
 
+	c.Reps = genC18Reps(t, len(c.K))
+
 	return c
+}
+
+// many replays only of short macros (cost, and buffers stay small)
+func genC18Reps(t *rapid.T, nkeys int) int {
+	r := rapid.SampledFrom([]int{1, 1, 1, 1, 2, 3, 21, 22, 30}).Draw(t, "reps")
+	if r > 3 && nkeys > 5 {
+		r = 2
+	}
+
+	return r
 }
 
 func (c *C18Case) reg() string {
@@ -132,7 +157,10 @@ func runC18Session(h *Harness, child *rig.Child, c *C18Case, record bool) (*c18O
 		}
 
 		out.afterFirst = d.parks[len(d.parks)-1]
-		typeK()
+
+		for i := 0; i < c.reps(); i++ {
+			typeK()
+		}
 	} else {
 		if c.Style == "emacs" {
 			d.send([]byte("\x18("))
@@ -171,11 +199,13 @@ func runC18Session(h *Harness, child *rig.Child, c *C18Case, record bool) (*c18O
 			return nil, &Failure{Clause: "discard", Msg: "still-recording"}
 		}
 
-		if c.Style == "emacs" {
-			d.send([]byte("\x18e"))
-		} else {
-			d.send([]byte("@"))
-			d.send([]byte(c.reg()))
+		for i := 0; i < c.reps(); i++ {
+			if c.Style == "emacs" {
+				d.send([]byte("\x18e"))
+			} else {
+				d.send([]byte("@"))
+				d.send([]byte(c.reg()))
+			}
 		}
 	}
 
@@ -273,8 +303,8 @@ func runC18(h *Harness, child *rig.Child, c *C18Case) (*Failure, bool) {
 			sig = "c18:lone-esc-in-macro"
 		}
 
-		return failf("replay", sig, "%s-style macro of keys [%s] from buffer %q: typing the keys twice gives %q (cursor %d, %s); recording them once and replaying gives %q (cursor %d, %s); after the first pass both had %q",
-			c.Style, strings.Join(keys, " "), c.B0, tOut.final.Line, tOut.final.Pos, tOut.final.Main, rOut.final.Line, rOut.final.Pos, rOut.final.Main, tOut.afterFirst.Line), true
+		return failf("replay", sig, "%s-style macro of keys [%s] from buffer %q: typing the keys 1+%d times gives %q (cursor %d, %s); recording them once and replaying %d time(s) gives %q (cursor %d, %s); after the first pass both had %q",
+			c.Style, strings.Join(keys, " "), c.B0, c.reps(), tOut.final.Line, tOut.final.Pos, tOut.final.Main, c.reps(), rOut.final.Line, rOut.final.Pos, rOut.final.Main, tOut.afterFirst.Line), true
 	}
 
 	if tOut.returned != rOut.returned || tOut.line != rOut.line {
